@@ -232,6 +232,23 @@ func pair(r *ev.Run, sg sysgen, a, b string, extra []string, rng *rand.Rand) {
 			r.Count("accumulations:"+sg.name, 1)
 		}
 	}
+	// The operands once more as set texts with their spans written in reverse
+	// order: ParseSetConstraint takes spans in any order, and a set means the
+	// same whatever order its spans are written in.
+	sortedA, revA := setTextOperands(sg, aO)
+	sortedB, revB := setTextOperands(sg, bO)
+	var revU *semver.Set
+	if revA != nil && revB != nil {
+		x, y := revA.Set(), revB.Set()
+		// Fresh parses for the union: Union may reuse its operands' storage.
+		if a2, b2 := reparse(sg, revA), reparse(sg, revB); a2 != nil && b2 != nil {
+			x, y = a2.Set(), b2.Set()
+			if x.Union(y) == nil {
+				revU = &x
+			}
+		}
+		r.Count("reversed_set_text_operands:"+sg.name, 1)
+	}
 	onlyOne, both := false, false
 	done := map[string]bool{}
 	for _, vs := range cands {
@@ -252,6 +269,18 @@ func pair(r *ev.Run, sg sysgen, a, b string, extra []string, rng *rand.Rand) {
 			if !done[law] {
 				done[law] = true
 				viol(law, what, vs)
+			}
+		}
+		if revA != nil && sortedA.MatchVersionPrerelease(v) != revA.MatchVersionPrerelease(v) {
+			rep("set-text:span-order", fmt.Sprintf("v=%s: the set text of A with its spans in reverse order matches %v, in printed order %v", vs, revA.MatchVersionPrerelease(v), sortedA.MatchVersionPrerelease(v)))
+		}
+		if revB != nil && sortedB.MatchVersionPrerelease(v) != revB.MatchVersionPrerelease(v) {
+			rep("set-text:span-order", fmt.Sprintf("v=%s: the set text of B with its spans in reverse order matches %v, in printed order %v", vs, revB.MatchVersionPrerelease(v), sortedB.MatchVersionPrerelease(v)))
+		}
+		if revU != nil {
+			// As for the union law above: plain MatchVersion.
+			if got, want := revU.MatchVersion(v), sortedA.Set().MatchVersion(v) || sortedB.Set().MatchVersion(v); got != want {
+				rep("set-text:union", fmt.Sprintf("v=%s: union of the operands given as set texts with reversed spans (%s) matches %v, the operands %v", vs, revU.String(), got, want))
 			}
 		}
 		if accOK {
@@ -312,6 +341,41 @@ func pair(r *ev.Run, sg sysgen, a, b string, extra []string, rng *rand.Rand) {
 			r.Sample(map[string]string{"sys": sg.name, "A": a, "B": b, "A∪B": u.String(), "A∩B": i.String()})
 		}
 	}
+}
+
+// setTextOperands parses the operand's printed set as it stands and with its
+// spans in reverse order (nil, nil when the set has fewer than two spans or
+// its text does not parse back, which is C11's subject).
+func setTextOperands(sg sysgen, c *semver.Constraint) (sorted, rev *semver.Constraint) {
+	txt := c.Set().String()
+	if !strings.HasPrefix(txt, "{") || !strings.HasSuffix(txt, "}") {
+		return nil, nil
+	}
+	spans := strings.Split(txt[1:len(txt)-1], ",")
+	if len(spans) < 2 {
+		return nil, nil
+	}
+	for i, j := 0, len(spans)-1; i < j; i, j = i+1, j-1 {
+		spans[i], spans[j] = spans[j], spans[i]
+	}
+	sorted, err := sg.sys.ParseSetConstraint(txt)
+	if err != nil {
+		return nil, nil
+	}
+	rev, err = sg.sys.ParseSetConstraint("{" + strings.Join(spans, ",") + "}")
+	if err != nil {
+		return nil, nil
+	}
+	return sorted, rev
+}
+
+// reparse parses a set constraint's own text again (a fresh object).
+func reparse(sg sysgen, c *semver.Constraint) *semver.Constraint {
+	n, err := sg.sys.ParseSetConstraint(c.String())
+	if err != nil {
+		return nil
+	}
+	return n
 }
 
 // adjacentMergeGap recognises the recorded finding about canonicalisation
